@@ -43,6 +43,12 @@ pub struct Directory<TC, S: Database, V> {
     /// (in this case we do utilize the write() lock which can only occur 1
     /// at a time and gates further read() locks being acquired during write()).
     cache_lock: Arc<RwLock<()>>,
+    /// The publish lock makes sure that publish operations issued concurrently on this
+    /// directory (or on clones of it, which share the same storage manager) are performed
+    /// one after another. A publish reads the current epoch, builds the next one in the shared
+    /// in-memory transaction and commits it, and two publishes doing this at the same time
+    /// would both build (and return) the same "next" epoch.
+    publish_lock: Arc<tokio::sync::Mutex<()>>,
     tc: PhantomData<TC>,
 }
 
@@ -54,6 +60,7 @@ impl<TC, S: Database, V: VRFKeyStorage> Clone for Directory<TC, S, V> {
             vrf: self.vrf.clone(),
             parallelism_config: self.parallelism_config,
             cache_lock: self.cache_lock.clone(),
+            publish_lock: self.publish_lock.clone(),
             tc: PhantomData,
         }
     }
@@ -92,6 +99,7 @@ where
             vrf,
             parallelism_config,
             cache_lock: Arc::new(RwLock::new(())),
+            publish_lock: Arc::new(tokio::sync::Mutex::new(())),
             tc: PhantomData,
         })
     }
@@ -102,6 +110,10 @@ where
     /// condition is explicitly checked, and an error will be returned if this is the case.
     #[cfg_attr(feature = "tracing_instrument", tracing::instrument(skip_all, fields(num_updates = updates.len())))]
     pub async fn publish(&self, updates: Vec<(AkdLabel, AkdValue)>) -> Result<EpochHash, AkdError> {
+        // Only one publish at a time (for this directory and its clones). This guard will be
+        // dropped at the end of the publish operation
+        let _publish_guard = self.publish_lock.lock().await;
+
         // The guard will be dropped at the end of the publish operation
         let _guard = self.cache_lock.read().await;
 
@@ -895,6 +907,7 @@ where
             vrf,
             parallelism_config,
             cache_lock: Arc::new(RwLock::new(())),
+            publish_lock: Arc::new(tokio::sync::Mutex::new(())),
             tc: PhantomData,
         }))
     }
